@@ -4162,19 +4162,20 @@ type kr_mode =
 | KPrepend
 
 type killring = { kr_slots : str list; kr_cap : nat; kr_index : nat;
-                  kr_last : kr_action; kr_killing : bool }
+                  kr_last : kr_action; kr_killing : bool; kr_newest : 
+                  nat }
 
 (** val kr_new : nat -> killring **)
 
 let kr_new size =
   { kr_slots = []; kr_cap = size; kr_index = O; kr_last = KAOther;
-    kr_killing = false }
+    kr_killing = false; kr_newest = O }
 
 (** val kr_reset : killring -> killring **)
 
 let kr_reset k =
   { kr_slots = k.kr_slots; kr_cap = k.kr_cap; kr_index = k.kr_index;
-    kr_last = KAOther; kr_killing = k.kr_killing }
+    kr_last = KAOther; kr_killing = k.kr_killing; kr_newest = k.kr_newest }
 
 (** val list_set : 'a1 list -> nat -> 'a1 -> 'a1 list **)
 
@@ -4201,27 +4202,28 @@ let kr_kill k text m0 =
             in
             Ok { kr_slots = (list_set k.kr_slots k.kr_index s'); kr_cap =
             k.kr_cap; kr_index = k.kr_index; kr_last = KAKill; kr_killing =
-            k.kr_killing }
+            k.kr_killing; kr_newest = k.kr_newest }
           | None -> Panic)
   | _ ->
     if Nat.eqb k.kr_cap O
     then Ok { kr_slots = k.kr_slots; kr_cap = k.kr_cap; kr_index =
-           k.kr_index; kr_last = KAKill; kr_killing = k.kr_killing }
+           k.kr_index; kr_last = KAKill; kr_killing = k.kr_killing;
+           kr_newest = k.kr_newest }
     else let idx =
-           if Nat.eqb k.kr_index (sub k.kr_cap (S O))
+           if Nat.eqb k.kr_newest (sub k.kr_cap (S O))
            then O
            else if negb (Nat.eqb (length k.kr_slots) O)
-                then S k.kr_index
-                else k.kr_index
+                then S k.kr_newest
+                else k.kr_newest
          in
          if Nat.eqb idx (length k.kr_slots)
          then Ok { kr_slots = (app k.kr_slots (text :: [])); kr_cap =
                 k.kr_cap; kr_index = idx; kr_last = KAKill; kr_killing =
-                k.kr_killing }
+                k.kr_killing; kr_newest = idx }
          else if Nat.ltb idx (length k.kr_slots)
               then Ok { kr_slots = (list_set k.kr_slots idx text); kr_cap =
                      k.kr_cap; kr_index = idx; kr_last = KAKill; kr_killing =
-                     k.kr_killing }
+                     k.kr_killing; kr_newest = idx }
               else Panic
 
 (** val kr_yank : killring -> killring * str option **)
@@ -4230,7 +4232,8 @@ let kr_yank k =
   match nth_error k.kr_slots k.kr_index with
   | Some s ->
     ({ kr_slots = k.kr_slots; kr_cap = k.kr_cap; kr_index = k.kr_index;
-      kr_last = (KAYank (blen s)); kr_killing = k.kr_killing }, (Some s))
+      kr_last = (KAYank (blen s)); kr_killing = k.kr_killing; kr_newest =
+      k.kr_newest }, (Some s))
   | None -> (k, None)
 
 (** val kr_yank_pop : killring -> killring * (nat * str) option **)
@@ -4249,8 +4252,8 @@ let kr_yank_pop k =
        (match nth_error k.kr_slots idx with
         | Some s ->
           ({ kr_slots = k.kr_slots; kr_cap = k.kr_cap; kr_index = idx;
-            kr_last = (KAYank (blen s)); kr_killing = k.kr_killing }, (Some
-            (size, s)))
+            kr_last = (KAYank (blen s)); kr_killing = k.kr_killing;
+            kr_newest = k.kr_newest }, (Some (size, s)))
         | None -> (k, None)))
   | _ -> (k, None)
 
@@ -4265,10 +4268,10 @@ let kr_notify k = function
   else Ok k
 | EStartKill ->
   Ok { kr_slots = k.kr_slots; kr_cap = k.kr_cap; kr_index = k.kr_index;
-    kr_last = k.kr_last; kr_killing = true }
+    kr_last = k.kr_last; kr_killing = true; kr_newest = k.kr_newest }
 | EStopKill ->
   Ok { kr_slots = k.kr_slots; kr_cap = k.kr_cap; kr_index = k.kr_index;
-    kr_last = k.kr_last; kr_killing = false }
+    kr_last = k.kr_last; kr_killing = false; kr_newest = k.kr_newest }
 | _ -> Ok k
 
 (** val kr_notify_all : killring -> event list -> killring res **)
